@@ -208,6 +208,43 @@ def check_config(rep, prog):
     if not ok_ev:
         rep.violate("C17.R-ends", "R-ends|eval-endpoints", ev.where(), "BezierSpline::eval does not clamp to the first/last control point through step()", config=cfg)
 
+    # ---- E-exact: CubicBezier::eval / fast_eval return the end control points VERBATIM at and beyond the ends
+    CB = SP + "CubicBezier"
+    for fn in ("eval", "fast_eval"):
+        body = prog.body(SP + "CubicBezier::<T>::" + fn)
+        res = {}
+        for rel0, rel1, want in (("lt", "lt", "p0"), ("eq", "lt", "p0"), ("gt", "eq", "p3"), ("gt", "gt", "p3")):
+            def orc2(op, a, b, rel0=rel0, rel1=rel1):
+                tt = ("sym", "t")
+                if a == tt and b == ("f", 0.0):
+                    r = rel0
+                elif a == tt and b == ("f", 1.0):
+                    r = rel1
+                elif b == tt and a == ("f", 0.0):
+                    r = {"lt": "gt", "eq": "eq", "gt": "lt"}[rel0]
+                elif b == tt and a == ("f", 1.0):
+                    r = {"lt": "gt", "eq": "eq", "gt": "lt"}[rel1]
+                else:
+                    return None
+                return {"lt": {"Lt": 1, "Le": 1, "Gt": 0, "Ge": 0, "Eq": 0, "Ne": 1}, "eq": {"Lt": 0, "Le": 1, "Gt": 0, "Ge": 1, "Eq": 1, "Ne": 0},
+                        "gt": {"Lt": 0, "Le": 0, "Gt": 1, "Ge": 1, "Eq": 0, "Ne": 1}}[r].get(op)
+            it = A.Interp(prog, oracle=orc2, models={"core::clone::Clone::clone": lambda it, args, c, d: A.deref_all(it, args[0])})
+            cell = A.Frame(None)
+            cell.locals[0] = ("adt", CB, "CubicBezier", [("array", [("sym", "p%d" % i) for i in range(4)])])
+            try:
+                r = it.call_body(body, [("ref", cell, 0, []), ("sym", "t")])
+                got = r[1] if isinstance(r, tuple) and r[0] == "sym" else "computed"
+            except A.Undecided:
+                got = "computed"
+            except A.Panic as e:
+                got = "panic"
+            res["t%s0,t%s1" % ({"lt": "<", "eq": "=", "gt": ">"}[rel0], {"lt": "<", "eq": "=", "gt": ">"}[rel1])] = got
+            if got != want:
+                rep.violate("C17.E-exact", "E-exact|%s|%s" % (fn, want), body.where(),
+                            "CubicBezier::%s does not return control point %s verbatim for t %s (it is %s): the curve's ends are no longer exact"
+                            % (fn, want, "<= 0" if want == "p0" else ">= 1", got), config=cfg)
+        rep.inst("C17.E-exact", "CubicBezier::%s at/beyond the ends returns the control point itself: %s" % (fn, res), config=cfg)
+
     # ---- R-ctor
     sites = []
     for b in prog.bodies.values():
@@ -246,6 +283,6 @@ def check(rep, args):
                        "control dependence of the only push, interval bookkeeping, and abstract interpretation of step() over orderings",
         "evaluations": len(rep.instances),
         "distinct_nontrivial": len({i["what"] for i in rep.instances}),
-        "rules": ["R-term", "R-ctor", "R-leaf", "R-ends"],
+        "rules": ["R-term", "R-ctor", "R-leaf", "R-ends", "E-exact"],
     }
     return "other", cov, ["the caller's `halt` closure terminates", "evaluator agreement, tangents, convex hull and continuity are numeric and not decided"]
